@@ -93,7 +93,7 @@ func runWorker(args []string) int {
 	out := fs.String("out", "", "")
 	ann := fs.String("announce", "", "")
 	skip := fs.String("skip", "", "comma separated family:index cases to skip (blamed for a crash earlier)")
-	cpuBudget := fs.Int("cpu-budget", 300, "CPU seconds one case may use before it is reported as non-terminating")
+	cpuBudget := fs.Int("cpu-budget", 150, "CPU seconds one case may use before it is reported as non-terminating")
 	id := args[0]
 	fs.Parse(args[1:])
 	m := mon.Registry[id]
@@ -139,6 +139,7 @@ func runWorker(args []string) int {
 		os.WriteFile(tmp, b, 0o644)
 		os.Rename(tmp, *out)
 	}
+	var flushed int64
 	for _, fam := range m.Families {
 		n := fam.N(*tier)
 		for idx := *shard; idx < n; idx += *nshards {
@@ -160,6 +161,10 @@ func runWorker(args []string) int {
 				fam.Run(c)
 			}()
 			atomic.StoreInt64(&caseStartCPU, 0)
+			if rep.NViol > flushed {
+				flushed = rep.NViol
+				write() // keep what was found even if a later case kills the process
+			}
 			if rep.NViol >= 10 || len(rep.Harness) >= 3 {
 				res.StoppedEarly = true
 				write()
@@ -289,6 +294,9 @@ func runDriver(args []string) int {
 				}
 				lf.Close()
 				b, rerr := os.ReadFile(outF)
+				if ee, ok := werr.(*exec.ExitError); ok && ee.ExitCode() == 66 {
+					werr = nil // the race detector's exit status after it reported races; the worker itself finished and wrote its result
+				}
 				if werr == nil && rerr == nil {
 					var wr workerResult
 					if json.Unmarshal(b, &wr) == nil && wr.Report != nil {
